@@ -32,6 +32,8 @@ import (
 	"fmt"
 	"go/ast"
 	"go/token"
+	"math/big"
+	"regexp"
 	"strings"
 
 	"golang.org/x/tools/go/ssa"
@@ -370,267 +372,454 @@ func checkDCOrientationV1(ctx *Ctx, r *Report) {
 		}
 	})
 	r.check("K2", "computeOctreeLeaf|corner-bit-means-solid", leaf.Pos(), bitSolid, "bit i of `corners` is set iff Evaluate(corner i) < 0")
-	// emission orders per flip branch
-	type app struct {
-		k     int64
-		guard string
-	}
-	var flipPhi ssa.Value
-	var apps []app
-	allInstrs(fn, func(b *ssa.BasicBlock, ins ssa.Instruction) {
-		c, ok := ins.(*ssa.Call)
-		if !ok {
-			return
-		}
-		bi, ok := c.Call.Value.(*ssa.Builtin)
-		if !ok || bi.Name() != "append" {
-			return
-		}
-		// the appended element: a [1]int varargs array holding indices[k]
-		var k int64 = -1
-		if sl, ok := c.Call.Args[1].(*ssa.Slice); ok {
-			if al, ok := sl.X.(*ssa.Alloc); ok {
-				for _, ref := range *al.Referrers() {
-					if ia, ok := ref.(*ssa.IndexAddr); ok {
-						for _, r2 := range *ia.Referrers() {
-							if st, ok := r2.(*ssa.Store); ok {
-								if ld, ok := st.Val.(*ssa.UnOp); ok {
-									if src, ok := ld.X.(*ssa.IndexAddr); ok {
-										if kk, ok := constInt(src.Index); ok {
-											k = kk
-										}
-									}
-								}
-							}
-						}
-					}
-				}
-			}
-		}
-		g := "?"
-		for _, gd := range branchGuards(b) {
-			if phi, ok := gd.cond.(*ssa.Phi); ok {
-				isFlip := len(neqZeroSources(phi, 0, map[ssa.Value]bool{})) > 0
-				if isFlip {
-					flipPhi = phi
-					g = fmt.Sprint(gd.val)
-				}
-			}
-		}
-		apps = append(apps, app{k, g})
-	})
+	// emission orders per flip branch, read from the symbolic execution of the function (its
+	// four-iteration loop is unrolled): every append event carries its path condition, whose
+	// last conjunct is the flip flag or its negation, and the values it appends.
+	ev := newEval(ctx)
+	ev.evalRoot(fn)
 	seq := map[string][]int64{}
-	for _, a := range apps {
-		seq[a.guard] = append(seq[a.guard], a.k)
-	}
-	okSeq := fmt.Sprint(seq["false"]) == "[0 1 3 0 3 2]" && fmt.Sprint(seq["true"]) == "[0 3 1 0 2 3]"
-	r.check("K2", "dcContourProcessEdge|quad-orders", fn.Pos(), okSeq && flipPhi != nil,
-		fmt.Sprintf("not flipped: %v (expected 0 1 3 0 3 2: sense −dir for a right-handed block), flipped: %v (expected the reverse sense)", seq["false"], seq["true"]))
-	// flip ⇔ low end of the edge solid: m1 = (corners >> dcEdgevmap[edge][0]) & 1, flip = m1 != 0
-	lowEnd := false
-	if phi, ok := flipPhi.(*ssa.Phi); ok {
-		for _, bo := range neqZeroSources(phi, 0, map[ssa.Value]bool{}) {
-			// bo.X = (corners >> c1) & 1 with c1 = dcEdgevmap[edge][0]
-			and, ok := bo.X.(*ssa.BinOp)
-			if !ok || and.Op != token.AND {
-				continue
-			}
-			shr, ok := and.X.(*ssa.BinOp)
-			if !ok || shr.Op != token.SHR {
-				continue
-			}
-			// shift amount: load of dcEdgevmap[...][0]
-			v := shr.Y
-			if cv, ok := v.(*ssa.Convert); ok {
-				v = cv.X
-			}
-			if ld, ok := v.(*ssa.UnOp); ok {
-				if ia, ok := ld.X.(*ssa.IndexAddr); ok {
-					if k, ok := constInt(ia.Index); ok && k == 0 {
-						lowEnd = true
-					}
+	var flipTerm *Term
+	okShape := !ev.Exceeded
+	shapeDetail := ""
+	for _, e := range eventsOf(ev, "append") {
+		cs := conjuncts(e.Cond)
+		if len(cs) == 0 {
+			okShape = false
+			shapeDetail = "append without a path condition"
+			continue
+		}
+		last := cs[len(cs)-1]
+		g := "true"
+		if last.Op == "not" {
+			last, g = last.Args[0], "false"
+		}
+		if flipTerm == nil {
+			flipTerm = last
+		} else if flipTerm.Key() != last.Key() {
+			okShape = false
+			shapeDetail = "appends are guarded by different flags: " + shortKey(flipTerm.Key(), 80) + " / " + shortKey(last.Key(), 80)
+		}
+		for _, v := range appendedVals(e) {
+			k := int64(-1)
+			if t, ok := v.(*Term); ok && t.Op == "a" {
+				var kk int64
+				if n, _ := fmt.Sscanf(t.S, "node[%d].drawInfo.index", &kk); n == 1 && t.S == fmt.Sprintf("node[%d].drawInfo.index", kk) {
+					k = kk
 				}
+			}
+			seq[g] = append(seq[g], k)
+		}
+	}
+	okSeq := okShape && fmt.Sprint(seq["false"]) == "[0 1 3 0 3 2]" && fmt.Sprint(seq["true"]) == "[0 3 1 0 2 3]"
+	r.check("K2", "dcContourProcessEdge|quad-orders", fn.Pos(), okSeq && flipTerm != nil,
+		fmt.Sprintf("not flipped: %v (expected 0 1 3 0 3 2: sense −dir for a right-handed block), flipped: %v (expected the reverse sense) %s", seq["false"], seq["true"], shapeDetail))
+	// flip ⇔ low end of the edge solid: every value the flag can take is
+	// ((corners >> dcEdgevmap[edge][0]) & 1) != 0 of one of the four nodes (or its initial false)
+	lowEnd := flipTerm != nil
+	nLeaf := 0
+	detail := ""
+	if flipTerm != nil {
+		for _, lf := range iteLeaves(flipTerm) {
+			if lf.IsZero() {
+				continue // initial value, overwritten by the first node (size < MaxInt)
+			}
+			nLeaf++
+			c := lf
+			neg := false
+			if c.Op == "not" {
+				c, neg = c.Args[0], true
+			}
+			ok := neg && c.Op == "cmp" && c.S == "==" && (c.Args[0].IsZero() || c.Args[1].IsZero())
+			if ok {
+				bit := c.Args[0]
+				if bit.IsZero() {
+					bit = c.Args[1]
+				}
+				// op&(op>>(node[i].drawInfo.corners, dcEdgevmap[...][0]), 1)
+				ok = bit.Op == "call" && bit.S == "op&" && len(bit.Args) == 2
+				if ok {
+					sh, one := bit.Args[0], bit.Args[1]
+					if sh.IsOne() {
+						sh, one = one, sh
+					}
+					ok = one.IsOne() && sh.Op == "call" && sh.S == "op>>" && strings.HasSuffix(sh.Args[0].Key(), ".drawInfo.corners") &&
+						strings.Contains(sh.Args[1].Key(), "dcEdgevmap") && strings.HasSuffix(strings.TrimSuffix(sh.Args[1].Key(), ")"), "[0]")
+				}
+			}
+			if !ok {
+				lowEnd = false
+				detail += " flag value " + shortKey(lf.Key(), 120) + ";"
 			}
 		}
 	}
-	r.check("K2", "dcContourProcessEdge|flip-iff-low-end-of-the-edge-is-solid", fn.Pos(), lowEnd, "flip = (corner at dcEdgevmap[edge][0]) != 0: with low→high edges (K1b) and right-handed blocks (K1d) the emitted normal points from solid to void")
+	r.check("K2", "dcContourProcessEdge|flip-iff-low-end-of-the-edge-is-solid", fn.Pos(), lowEnd && nLeaf > 0, "flip = (corner at dcEdgevmap[edge][0]) != 0: with low→high edges (K1b) and right-handed blocks (K1d) the emitted normal points from solid to void"+detail)
 }
 
-// checkDCV2: K2/K3 for the voxel renderer (dc3v2.go).
+// conjuncts splits a right-nested conjunction ite(a, ite(b, c, 0), 0) into [a b c].
+func conjuncts(c *Term) []*Term {
+	var out []*Term
+	for c != nil {
+		if c.Op == "ite" && c.Args[2].IsZero() {
+			out = append(out, conjuncts(c.Args[0])...)
+			c = c.Args[1]
+			continue
+		}
+		if !c.IsOne() {
+			out = append(out, c)
+		}
+		break
+	}
+	return out
+}
+
+// iteLeaves returns the values a gated term can take.
+func iteLeaves(t *Term) []*Term {
+	if t.Op == "ite" {
+		return append(iteLeaves(t.Args[1]), iteLeaves(t.Args[2])...)
+	}
+	return []*Term{t}
+}
+
+// appendedVals returns the values an append event adds (its variadic slice, read from the
+// state snapshot of the event).
+func appendedVals(e Event) []Val {
+	var out []Val
+	for _, a := range e.Args[1:] {
+		sv, ok := a.(*SliceV)
+		if !ok || sv.Arr == nil {
+			out = append(out, a)
+			continue
+		}
+		agg, ok := e.State.mem[sv.Arr].(*Agg)
+		if !ok {
+			out = append(out, a)
+			continue
+		}
+		hi := len(agg.Elems)
+		if sv.Len >= 0 && sv.Lo+sv.Len <= hi {
+			hi = sv.Lo + sv.Len
+		}
+		for i := sv.Lo; i < hi; i++ {
+			out = append(out, agg.Elems[i])
+		}
+	}
+	return out
+}
+
+// checkDCV2: K2/K3 for the voxel renderer (dc3v2.go), decided on the symbolic execution of
+// generateTriangles: its axis loop is unrolled, the immutable tables dcFarEdges/dcCorners are
+// read from their literals, and each emission (send) is examined in its state snapshot.
 func checkDCV2(ctx *Ctx, r *Report) {
-	p := ctx.Pkgs["render/dc"]
-	fd := ctx.funcDecl("render/dc", "(*DualContouringV2).generateTriangles")
-	if fd == nil {
+	fn := ctx.ssaFunc("render/dc", "(*DualContouringV2).generateTriangles")
+	cin := ctx.ssaFunc("render/dc", "(*DualContouringV2).computeCornersInside")
+	if fn == nil || cin == nil {
 		r.undecided("K2", "dc3v2.generateTriangles", 0, "not found")
 		return
 	}
 	corners, _, err1 := readFloatVecTable(ctx, "render/dc", "dcCorners")
-	far, _, err2 := readVecTableI(ctx, "render/dc", "dcFarEdges")
-	if err1 != nil || err2 != nil || len(corners) != 8 || len(far) != 3 {
-		r.undecided("K2", "dc3v2.tables", fd.Pos(), fmt.Sprint(err1, err2))
+	if err1 != nil || len(corners) != 8 {
+		r.undecided("K2", "dc3v2.tables", fn.Pos(), fmt.Sprint(err1))
 		return
 	}
-	// neighbour offsets per ai, in source order k1,k2,k3
-	offs := map[int][]iv3{}
-	cur := -1
-	ast.Inspect(fd.Body, func(n ast.Node) bool {
-		switch x := n.(type) {
-		case *ast.IfStmt:
-			if be, ok := x.Cond.(*ast.BinaryExpr); ok && be.Op == token.EQL {
-				if id, ok := be.X.(*ast.Ident); ok && id.Name == "ai" {
-					if tv, ok := p.TypesInfo.Types[be.Y]; ok && tv.Value != nil {
-						v, _ := constantToRat(tv.Value)
-						cur = int(v.Num().Int64())
-						collectOffsets(p, x.Body, cur, offs)
-						if blk, ok := x.Else.(*ast.BlockStmt); ok {
-							collectOffsets(p, blk, cur+1, offs)
-						}
-					}
+	// --- corner bit i ⇔ the SDF is negative at dcCorners[i]
+	{
+		ev := newEval(ctx, "evaluateCached")
+		res, _ := ev.evalRoot(cin)
+		t, _ := res.(*Term)
+		ok := t != nil && !ev.Exceeded
+		detail := ""
+		if ok {
+			seenA := map[string]bool{}
+			var atoms []*Term
+			for _, a := range findSub(t, func(x *Term) bool { return x.Op == "cmp" }) {
+				if !seenA[a.Key()] {
+					seenA[a.Key()] = true
+					atoms = append(atoms, a)
 				}
 			}
-		}
-		return true
-	})
-	okN := len(offs[0]) == 3 && len(offs[1]) == 3 && len(offs[2]) == 3
-	r.check("K2", "dc3v2.generateTriangles|neighbour-offsets-found", fd.Pos(), okN, fmt.Sprint(offs))
-	if !okN {
-		return
-	}
-	// triangle literals: indices of k in order
-	var tris [][]string
-	ast.Inspect(fd.Body, func(n ast.Node) bool {
-		cl, ok := n.(*ast.CompositeLit)
-		if !ok || len(cl.Elts) != 3 {
-			return true
-		}
-		if tv, ok := p.TypesInfo.Types[cl]; !ok || !strings.HasSuffix(tv.Type.String(), "sdf.Triangle3") {
-			return true
-		}
-		var ks []string
-		for _, e := range cl.Elts {
-			ks = append(ks, strings.Fields(exprText(ctx.Fset, e))[0])
-		}
-		tris = append(tris, ks)
-		return true
-	})
-	want := [][]string{{"vertices[k0]", "vertices[k1.bufIndex]", "vertices[k3.bufIndex]"}, {"vertices[k0]", "vertices[k3.bufIndex]", "vertices[k2.bufIndex]"}}
-	okT := fmt.Sprint(tris) == fmt.Sprint(want)
-	r.check("K2", "dc3v2.generateTriangles|quad-order", fd.Pos(), okT, fmt.Sprintf("triangles %v (expected (k0,k1,k3),(k0,k3,k2))", tris))
-	// flip predicate text: ((inside >> edge.X) & 1) != uint8(ai&1)
-	flipTxt := ""
-	ast.Inspect(fd.Body, func(n ast.Node) bool {
-		if is, ok := n.(*ast.IfStmt); ok {
-			body := exprText(ctx.Fset, is.Cond)
-			hasFlip := false
-			ast.Inspect(is.Body, func(m ast.Node) bool {
-				if ce, ok := m.(*ast.CallExpr); ok {
-					if id, ok := ce.Fun.(*ast.Ident); ok && id.Name == "dcFlip" {
-						hasFlip = true
+			ok = len(atoms) == 8
+			detail = fmt.Sprintf("%d sign tests", len(atoms))
+			for c := 0; ok && c < 8; c++ {
+				// the sample point of corner c
+				want := fmt.Sprintf("agg(%s,%s,%s)", cornerCoord("X", corners[c][0]), cornerCoord("Y", corners[c][1]), cornerCoord("Z", corners[c][2]))
+				truth := map[string]bool{}
+				hit := 0
+				for _, a := range atoms {
+					isC := a.Op == "cmp" && a.S == "<" && a.Args[1].IsZero() && a.Args[0].Op == "call" && len(a.Args[0].Args) == 2 && a.Args[0].Args[1].Key() == want
+					truth[a.Key()] = isC
+					if isC {
+						hit++
 					}
 				}
-				return true
-			})
-			if hasFlip {
-				flipTxt = body
+				g := assume(t, truth)
+				if hit != 1 || !g.IsConst() || g.C.Cmp(big.NewRat(1<<uint(c), 1)) != 0 {
+					ok = false
+					detail = fmt.Sprintf("only corner %d solid (sample at %s): result %s, expected %d", c, want, shortKey(g.Key(), 80), 1<<uint(c))
+				}
 			}
+		} else {
+			detail = "not a closed form"
 		}
-		return true
-	})
-	flipNeq := strings.Contains(flipTxt, "edge.X") && strings.Contains(flipTxt, "!=") && strings.Contains(flipTxt, "ai&1")
-	flipEq := strings.Contains(flipTxt, "edge.X") && strings.Contains(flipTxt, "==") && strings.Contains(flipTxt, "ai&1")
-	if !flipNeq && !flipEq {
-		r.undecided("K2", "dc3v2.generateTriangles|flip-predicate", fd.Pos(), "flip predicate not recognised: "+flipTxt)
+		r.check("K2", "dc3v2.computeCornersInside|corner-bit-means-solid", cin.Pos(), ok, "bit i of the result is set iff the distance at cellStart + dcCorners[i]·cellSize is negative; "+detail)
+	}
+	// --- emissions
+	ev := newEval(ctx, "computeCornersInside", "Degenerate")
+	ev.evalRoot(fn)
+	sends := eventsOf(ev, "send")
+	r.check("K2", "dc3v2.generateTriangles|one-emission-per-axis", fn.Pos(), len(sends) == 3 && !ev.Exceeded, fmt.Sprintf("%d emissions found on the unrolled axis loop (expected 3)", len(sends)))
+	if len(sends) != 3 {
 		return
 	}
-	// geometric verdict per axis and per sign of the low corner
-	okO := okT
+	okO := true
 	detail := ""
-	for ai := 0; ai < 3; ai++ {
-		lo, hi := far[ai][0], far[ai][1]
-		d := iv3{int(corners[hi][0] - corners[lo][0]), int(corners[hi][1] - corners[lo][1]), int(corners[hi][2] - corners[lo][2])}
-		if d != unitI(ai) {
+	for ai, e := range sends {
+		bad := func(f string, a ...interface{}) {
 			okO = false
-			detail += fmt.Sprintf(" far edge %d is not along axis %d from low to high;", ai, ai)
+			detail += fmt.Sprintf(" axis %d: ", ai) + fmt.Sprintf(f, a...) + ";"
+		}
+		// the crossing test names the far edge: !(bit(lo) == bit(hi))
+		lo, hi := -1, -1
+		var inside *Term
+		nDegen := 0
+		for _, c := range conjuncts(e.Cond) {
+			if c.Op == "not" && c.Args[0].Op == "cmp" && c.Args[0].S == "==" {
+				b1, x1, ok1 := cornerBit(c.Args[0].Args[0])
+				b2, x2, ok2 := cornerBit(c.Args[0].Args[1])
+				if ok1 && ok2 && x1.Key() == x2.Key() {
+					lo, hi, inside = b1, b2, x1
+				}
+			}
+			if c.Op == "not" && strings.Contains(c.Args[0].Key(), "Degenerate") {
+				nDegen++
+			}
+		}
+		r.check("K3", fmt.Sprintf("dc3v2.generateTriangles|send#%d", ai+1), e.Pos, nDegen >= 2, fmt.Sprintf("both triangles of a quad are tested with !Degenerate before they are emitted (%d tests on the path)", nDegen))
+		if lo < 0 || lo > 7 || hi < 0 || hi > 7 {
+			bad("no crossing test of the two ends of a far edge on the path to the emission")
 			continue
 		}
-		k1, k3 := offs[ai][0], offs[ai][2]
-		n := crossI(k1, k3) // normal of (k0,k1,k3)
-		for lowSolid := 0; lowSolid < 2; lowSolid++ {
-			flip := lowSolid != ai&1
-			if flipEq {
-				flip = !flip
-			}
-			nn := n
-			if flip {
-				nn = iv3{-n[0], -n[1], -n[2]}
-			}
-			// outward = +axis when the low end is solid
-			wantSign := -1
-			if lowSolid == 1 {
-				wantSign = 1
-			}
-			if nn[ai]*wantSign <= 0 {
-				okO = false
-				detail += fmt.Sprintf(" axis %d, low end solid=%d: normal %v points into the solid;", ai, lowSolid, nn)
+		d := iv3{int(corners[hi][0] - corners[lo][0]), int(corners[hi][1] - corners[lo][1]), int(corners[hi][2] - corners[lo][2])}
+		axis := -1
+		for k := 0; k < 3; k++ {
+			if d == unitI(k) {
+				axis = k
 			}
 		}
-		// the three neighbours are the cells sharing the far edge
-		a, b := (ai+1)%3, (ai+2)%3
-		cells := map[iv3]bool{offs[ai][0]: true, offs[ai][1]: true, offs[ai][2]: true}
-		if !cells[unitI(a)] || !cells[unitI(b)] || !cells[unitI(a).add(unitI(b))] {
-			okO = false
-			detail += fmt.Sprintf(" axis %d: neighbours %v are not the three other cells around the far edge;", ai, offs[ai])
+		if axis < 0 {
+			bad("the tested corners %d→%d are not a lattice edge from low to high", lo, hi)
+			continue
 		}
-	}
-	r.check("K2", "dc3v2.generateTriangles|normals-point-from-solid-to-void", fd.Pos(), okO, "for each axis and both sign cases of the far edge"+detail)
-	// K3
-	fn := ctx.ssaFunc("render/dc", "(*DualContouringV2).generateTriangles")
-	if fn != nil {
-		n := 0
-		allInstrs(fn, func(b *ssa.BasicBlock, ins ssa.Instruction) {
-			s, ok := ins.(*ssa.Send)
-			if !ok {
-				return
-			}
-			n++
-			cnt := 0
-			for _, g := range branchGuards(b) {
-				if _, ok := isCallTo(g.cond, "Degenerate"); ok && !g.val {
-					cnt++
+		// the cell's far corner is 7: the edge must end there (the three cells sharing it are +1 neighbours)
+		if hi != 7 {
+			bad("the tested edge %d→%d does not end at the far corner", lo, hi)
+		}
+		// the two triangles
+		tris, flipAtom, msg := sentTriangles(e)
+		if msg != "" {
+			bad("%s", msg)
+			continue
+		}
+		// flip ⇔ f(low bit): the atom compares the low-end bit with a constant
+		var parity int64 = -1
+		if flipAtom != nil && flipAtom.Op == "cmp" && flipAtom.S == "==" {
+			for k := 0; k < 2; k++ {
+				bt, x, ok := cornerBit(flipAtom.Args[k])
+				o := flipAtom.Args[1-k]
+				if ok && bt == lo && x.Key() == inside.Key() && o.IsConst() && o.C.IsInt() {
+					parity = o.C.Num().Int64()
 				}
 			}
-			r.check("K3", fmt.Sprintf("dc3v2.generateTriangles|send#%d", n), s.Pos(), cnt >= 2, fmt.Sprintf("both triangles of a quad are tested with !Degenerate before they are emitted (%d tests dominate the send)", cnt))
-		})
-		if n == 0 {
-			r.undecided("K3", "dc3v2.generateTriangles", fn.Pos(), "no emission found")
 		}
-	}
-}
-
-func collectOffsets(p interface{}, blk *ast.BlockStmt, ai int, out map[int][]iv3) {
-	if _, done := out[ai]; done {
-		return
-	}
-	ast.Inspect(blk, func(n ast.Node) bool {
-		if is, ok := n.(*ast.IfStmt); ok {
-			_ = is
-			return false // nested else-if handled by the caller
+		if flipAtom == nil || parity < 0 {
+			bad("the winding does not depend on the low-end bit of the tested edge (flip atom %v)", flipAtom)
+			continue
 		}
-		cl, ok := n.(*ast.CompositeLit)
-		if !ok || len(cl.Elts) != 3 {
-			return true
-		}
-		var v iv3
-		for i, e := range cl.Elts {
-			if bl, ok := e.(*ast.BasicLit); ok {
-				fmt.Sscan(bl.Value, &v[i])
-			} else {
-				return true
+		a, b := (axis+1)%3, (axis+2)%3
+		for lowSolid := int64(0); lowSolid < 2; lowSolid++ {
+			truth := map[string]bool{flipAtom.Key(): lowSolid == parity}
+			cells := map[iv3]int{}
+			for ti, tri := range tris {
+				var offs [3]iv3
+				okT := true
+				for vi, x := range tri {
+					o, ok := vertexOffset(assume(x, truth))
+					if !ok {
+						okT = false
+						bad("vertex %d of triangle %d is not vertices[<cell>.bufIndex]: %s", vi, ti, shortKey(assume(x, truth).Key(), 100))
+					}
+					offs[vi] = o
+				}
+				if !okT {
+					continue
+				}
+				if offs[0] != (iv3{}) {
+					bad("triangle %d does not start at the cell's own vertex", ti)
+				}
+				n := crossI(offs[1].sub(offs[0]), offs[2].sub(offs[0]))
+				want := -1
+				if lowSolid == 1 {
+					want = 1 // low end solid: outward is +axis
+				}
+				if n[axis]*want <= 0 {
+					bad("low end solid=%d: triangle %d has normal %v, pointing into the solid", lowSolid, ti, n)
+				}
+				cells[offs[1]]++
+				cells[offs[2]]++
+			}
+			ua, ub := unitI(a), unitI(b)
+			if cells[ua] != 1 || cells[ub] != 1 || cells[ua.add(ub)] != 2 || len(cells) != 3 {
+				bad("low end solid=%d: the quad does not join the three other cells around the far edge along their diagonal: %v", lowSolid, cells)
 			}
 		}
-		out[ai] = append(out[ai], v)
-		return true
-	})
+	}
+	r.check("K2", "dc3v2.generateTriangles|normals-point-from-solid-to-void", fn.Pos(), okO, "for each axis and both sign cases of the far edge, from the emitted vertex order"+detail)
+}
+
+// cornerCoord is the key of cellStart.A + c·cellSize.A for c in {0,1}.
+func cornerCoord(ax string, c float64) string {
+	if c == 0 {
+		return A("cellStart." + ax).Key()
+	}
+	return Add(A("cellStart."+ax), A("cellSize."+ax)).Key()
+}
+
+// cornerBit matches (x >> k) & 1 with constant k.
+func cornerBit(t *Term) (int, *Term, bool) {
+	if t.Op == "conv" {
+		t = t.Args[0]
+	}
+	if t.Op != "call" || t.S != "op&" || len(t.Args) != 2 {
+		return 0, nil, false
+	}
+	sh, one := t.Args[0], t.Args[1]
+	if sh.IsOne() {
+		sh, one = one, sh
+	}
+	if !one.IsOne() || sh.Op != "call" || sh.S != "op>>" {
+		return 0, nil, false
+	}
+	k := sh.Args[1]
+	if k.Op == "conv" {
+		k = k.Args[0]
+	}
+	if !k.IsConst() || !k.C.IsInt() {
+		return 0, nil, false
+	}
+	return int(k.C.Num().Int64()), sh.Args[0], true
+}
+
+// sentTriangles reads the two triangles of a send event: per triangle the X component term of
+// each of its three vertices (a gated term when the winding is conditional), and the single
+// condition atom the winding depends on.
+func sentTriangles(e Event) (tris [][3]*Term, flip *Term, msg string) {
+	if len(e.Args) < 2 {
+		return nil, nil, "send without a value"
+	}
+	sv, ok := e.Args[1].(*SliceV)
+	if !ok || sv.Arr == nil {
+		return nil, nil, "the value sent is not a locally built slice"
+	}
+	agg, ok := e.State.mem[sv.Arr].(*Agg)
+	if !ok {
+		return nil, nil, "slice contents unknown"
+	}
+	hi := len(agg.Elems)
+	if sv.Len >= 0 && sv.Lo+sv.Len <= hi {
+		hi = sv.Lo + sv.Len
+	}
+	atoms := map[string]*Term{}
+	for i := sv.Lo; i < hi; i++ {
+		p, ok := agg.Elems[i].(*Ptr)
+		if !ok || p.Obj == nil {
+			return nil, nil, fmt.Sprintf("element %d of the sent slice is not a single triangle object (%s)", i, shortKey(valKey(agg.Elems[i]), 80))
+		}
+		tv, ok := e.State.mem[p.Obj].(*Agg)
+		if !ok || len(tv.Elems) != 3 {
+			return nil, nil, "triangle contents unknown"
+		}
+		var tri [3]*Term
+		for k, v := range tv.Elems {
+			xv, _ := fieldOf(v, "X")
+			x, ok := xv.(*Term)
+			if !ok {
+				return nil, nil, "vertex component is not a scalar term"
+			}
+			tri[k] = x
+			for _, c := range condAtoms(x) {
+				atoms[c.Key()] = c
+			}
+		}
+		tris = append(tris, tri)
+	}
+	if len(tris) != 2 {
+		return nil, nil, fmt.Sprintf("%d triangles emitted per crossing, expected 2", len(tris))
+	}
+	if len(atoms) > 1 {
+		return nil, nil, fmt.Sprintf("the winding depends on %d conditions", len(atoms))
+	}
+	for _, c := range atoms {
+		flip = c
+	}
+	return tris, flip, ""
+}
+
+var reLookupOff = regexp.MustCompile(`^vertices\[lookup\(sym:infoI,\{(.*)\}\)\.bufIndex\]\.X$`)
+
+// vertexOffset: the cell, relative to the current one, whose vertex the term reads:
+// vertices[info[i].bufIndex].X is the cell itself, vertices[lookup(infoI,{cellIndex+o}).bufIndex].X
+// the neighbour at offset o.
+func vertexOffset(t *Term) (iv3, bool) {
+	if t.Op != "a" {
+		return iv3{}, false
+	}
+	if strings.HasPrefix(t.S, "vertices[info[") && strings.HasSuffix(t.S, "].bufIndex].X") && !strings.Contains(t.S, "lookup(") {
+		return iv3{}, true
+	}
+	m := reLookupOff.FindStringSubmatch(t.S)
+	if m == nil {
+		return iv3{}, false
+	}
+	parts := splitTop(m[1])
+	if len(parts) != 3 {
+		return iv3{}, false
+	}
+	var o iv3
+	for i, p := range parts {
+		ax := []string{".cellIndex.X", ".cellIndex.Y", ".cellIndex.Z"}[i]
+		switch {
+		case strings.HasPrefix(p, "info[") && strings.HasSuffix(p, ax):
+			o[i] = 0
+		case strings.HasPrefix(p, "+(") && strings.HasSuffix(p, ax+")"):
+			var k int
+			if _, err := fmt.Sscanf(p, "+(%d,", &k); err != nil {
+				return iv3{}, false
+			}
+			o[i] = k
+		default:
+			return iv3{}, false
+		}
+	}
+	return o, true
+}
+
+// splitTop splits a space separated list at nesting depth 0.
+func splitTop(s string) []string {
+	var out []string
+	depth, start := 0, 0
+	for i, c := range s {
+		switch c {
+		case '(', '[', '{':
+			depth++
+		case ')', ']', '}':
+			depth--
+		case ' ':
+			if depth == 0 {
+				out = append(out, s[start:i])
+				start = i + 1
+			}
+		}
+	}
+	return append(out, s[start:])
 }
 
 func readFloatVecTable(ctx *Ctx, pkg, name string) ([][3]float64, token.Pos, error) {
@@ -685,25 +874,3 @@ func readVecTableI(ctx *Ctx, pkg, name string) ([][]int, token.Pos, error) {
 	return out, pos, nil
 }
 
-// neqZeroSources follows phi edges to the comparisons `x != 0` that feed them.
-func neqZeroSources(v ssa.Value, depth int, seen map[ssa.Value]bool) []*ssa.BinOp {
-	if depth > 4 || seen[v] {
-		return nil
-	}
-	seen[v] = true
-	switch x := v.(type) {
-	case *ssa.Phi:
-		var out []*ssa.BinOp
-		for _, e := range x.Edges {
-			out = append(out, neqZeroSources(e, depth+1, seen)...)
-		}
-		return out
-	case *ssa.BinOp:
-		if x.Op == token.NEQ {
-			if z, ok := constInt(x.Y); ok && z == 0 {
-				return []*ssa.BinOp{x}
-			}
-		}
-	}
-	return nil
-}
